@@ -1,6 +1,7 @@
 import Rscp.Props.C01
 import Rscp.Props.C01a
 import Rscp.Props.C01b
+import Rscp.Props.C01c
 import Rscp.Tie.Reader
 import Rscp.Tie.Writer
 import Rscp.Tie.Validate
@@ -11,6 +12,9 @@ import Rscp.Tie.Validate
 #print axioms Rscp.Props.C01.spec_roundtrip
 #print axioms Rscp.Props.C01.encode_injective
 #print axioms Rscp.Props.C01.decode_independent_of_envelope
+#print axioms Rscp.Props.C01.emptied_buffer_is_fresh
+#print axioms Rscp.Props.C01.empty_buffers_answer_alike
+#print axioms Rscp.Props.C01.frame_after_abandoned
 #print axioms Rscp.Tie.Reader.shape_rscp_readHeader
 #print axioms Rscp.Tie.Reader.shape_rscp_truncatePadding
 #print axioms Rscp.Tie.Reader.shape_rscp_read
